@@ -55,7 +55,7 @@ H400(p, ph, T20) == HPath(p, Rank(RefPh(p)), Tref20, Rank(EvPh(p, ph)), T20)
 S20(p, ph, T20)  == p.S0_20 + SPath(p, Rank(RefPh(p)), Tref20, Rank(EvPh(p, ph)), T20)
 Cn20(p, ph, T20) == 2 * Cof(p, Rank(EvPh(p, ph))) * T20          \* 20 x Cn = 20 x 2 c T = 2 c T20
 
-ParOK(p) == /\ p.ref \in {"s", "l", "g"} /\ p.lock \in {"none", "s", "l", "g"} /\ p.Tm20 < p.Tb20 /\ p.cs > 0 /\ p.cl > 0 /\ p.cg > 0
+ParOK(p) == /\ p.ref \in {"s", "l", "g"} /\ p.lock \in {"none", "s", "l", "g"} /\ p.Tm20 # p.Tb20 /\ p.cs > 0 /\ p.cl > 0 /\ p.cg > 0
             /\ p.Sfus20 * p.Tm20 = p.Hfus400 /\ p.Svap20 * p.Tb20 = p.Hvap400      \* S = H / T in these units
 
 ---------------------------------------------------------------------------
@@ -100,6 +100,7 @@ Judge(s, e) ==
        ELSE IF o.press > 10 THEN "db.gas_entropy_pressure_term"
        ELSE IF o.dH > 500 THEN "db.dH_dT_not_Cn"
        ELSE IF o.dS > 500 THEN "db.dS_dT_not_Cn_over_T"
+       ELSE IF o.switch > 5000 THEN "db.Cn_after_method_switch_not_dH_dT"
        ELSE "ok"
   ELSE IF e.op = "xmix" THEN
        LET q == s.mix
